@@ -311,7 +311,10 @@ def observed_assignment(fitting, m, params):
             onesigma = np.sqrt(np.diag(inv(covar)))
         except (np.linalg.LinAlgError, ValueError):
             onesigma = None
-        fitting.covar_errors(p, m.data, errs=errs, B=m.B, C=(m.C if m.use_c else None))
+        try:
+            fitting.covar_errors(p, m.data, errs=errs, B=m.B, C=(m.C if m.use_c else None))
+        except Exception as e:     # covar_errors must not raise on a valid fitted model
+            return [None] * (6 * len(m.comps)), onesigma, f'raised {type(e).__name__}: {e}'
     obs = []
     status = 'ok'
     for i in range(len(m.comps)):
@@ -357,6 +360,17 @@ def run_models(ctx, models, tag='random', truth=False):
         lines.append("assign " + " ".join(map(str, m.masks)))
         # the C branch of covar_errors uses the Jacobian without B
         lines.append(f"{pre}lmjac {n} {m.npix} " + " ".join(ct + px + m.errs_tokens() + ['bnone']) if m.use_c else "rank 0")
+        try:
+            with np.errstate(all='ignore'):
+                np.asarray(fitting.jacobian(p, x, y), dtype=float)
+                if any(m.masks):
+                    fitting.lmfit_jacobian(p, x, y, errs=m.errs(), B=m.B)
+                fitting.ntwodgaussian_lmfit(p)(x[k:k + 1], y[k:k + 1])
+        except Exception as e:
+            ctx.fail('spec', m.case('raises'), f"{type(e).__name__}: {e} raised on a valid model ({m.variant()})",
+                     dict(site='fitting.jacobian', what='raises', error=type(e).__name__))
+            del lines[rec['start']:]
+            continue
         with np.errstate(all='ignore'):
             rec['jac'] = np.asarray(fitting.jacobian(p, x, y), dtype=float)
             nfree = sum(bin(v).count('1') for v in m.masks)
@@ -399,8 +413,8 @@ def run_models(ctx, models, tag='random', truth=False):
                     ctx.fail(kind_fail, m.case('jacobian', row=r, pixel=[int(m.mx[k]), int(m.my[k])],
                                                entry=[key[0], PARS[key[1]]]),
                              f"fitting.jacobian row {r} (component {key[0]}, {PARS[key[1]]}) at pixel "
-                             f"({int(m.mx[k])},{int(m.my[k])}) is {ij[r][k]!r}; "
-                             f"{'the true derivative' if truth else 'the model'} is {mj[r][k]!r}",
+                             f"({int(m.mx[k])},{int(m.my[k])}) is {float(ij[r][k])!r}; "
+                             f"{'the true derivative' if truth else 'the model'} is {float(mj[r][k])!r}",
                              dict(sig, what='entry', entry=PARS[key[1]]))
                     break
         # ---- sum model ----
@@ -430,11 +444,15 @@ def run_models(ctx, models, tag='random', truth=False):
                 if bad.any():
                     a, b = map(int, np.argwhere(bad)[0])
                     ctx.fail(kind_fail, m.case('lmfit_jacobian', at=[a, b]),
-                             f"lmfit_jacobian[{a},{b}] = {il[a, b]!r}, the model {ml[a, b]!r} ({m.variant()})",
+                             f"lmfit_jacobian[{a},{b}] = {float(il[a, b])!r}, "
+                             f"{'from the true derivatives' if truth else 'the model'} {float(ml[a, b])!r} ({m.variant()})",
                              dict(site='fitting.lmfit_jacobian', what='entry', variant=m.variant()))
         # ---- stderr assignment ----
         want = [None if t == '-' else int(t) for t in outs[s + 3].split()]
-        ctx.count('stderr-' + rec['status'])
+        ctx.count('stderr-' + rec['status'].split(':')[0])
+        if rec['status'].startswith('raised'):
+            ctx.fail('spec', m.case('stderr'), f"covar_errors {rec['status']} on a valid model with vary masks {m.masks}",
+                     dict(site='fitting.covar_errors', what='raises', error=rec['status'].split()[1].rstrip(':')))
         if rec['status'] == 'ok':
             if sp != 'ok':
                 first = next((k for k in range(6 * n) if rec['obs'][k] != want[k]), None)
@@ -474,7 +492,7 @@ def run_models(ctx, models, tag='random', truth=False):
                             ctx.fail(kind_fail, m.case('stderr-value', key=[i, PARS[q]]),
                                      f"c{i}_{PARS[q]}.stderr = {got!r}; sqrt of its own diagonal entry of the inverse "
                                      f"Fisher matrix built from {'the true derivatives' if truth else 'the model'} "
-                                     f"is {sig1[w]!r} (cond {cond:.3g})",
+                                     f"is {float(sig1[w])!r} (cond {cond:.3g})",
                                      dict(site='fitting.covar_errors', what='stderr-value', entry=PARS[q]))
                             break
         nt = (tag, tuple(m.masks), m.variant()) if nontrivial(m.comps, m.masks) else None
